@@ -44,7 +44,8 @@ pub enum Op {
     Subscribe { view: usize },
     SubscribeReader { reader: usize },
     /// `resolve_locale_with_options` called somewhere below live contexts, with its own options
-    Resolve { ctx: usize, enable_cookie: bool, cookie_name: Option<String> },
+    /// `accept`: the call is fed from another source than the page's contexts (its own Accept-Language header getter)
+    Resolve { ctx: usize, enable_cookie: bool, cookie_name: Option<String>, accept: Option<String> },
     Dispose { ctx: usize },
     Step { k: usize },
     Flush,
@@ -65,7 +66,7 @@ impl Op {
             Op::Get { view } => json!({"op": "get", "view": view}),
             Op::Subscribe { view } => json!({"op": "subscribe", "view": view}),
             Op::SubscribeReader { reader } => json!({"op": "subscribe_reader", "reader": reader}),
-            Op::Resolve { ctx, enable_cookie, cookie_name } => json!({"op": "resolve", "ctx": ctx, "enable_cookie": enable_cookie, "cookie_name": cookie_name}),
+            Op::Resolve { ctx, enable_cookie, cookie_name, accept } => json!({"op": "resolve", "ctx": ctx, "enable_cookie": enable_cookie, "cookie_name": cookie_name, "accept": accept}),
             Op::Dispose { ctx } => json!({"op": "dispose", "ctx": ctx}),
             Op::Step { k } => json!({"op": "step", "k": k}),
             Op::Flush => json!({"op": "flush"}),
@@ -88,7 +89,7 @@ impl Op {
             "get" => Op::Get { view: u("view") },
             "subscribe" => Op::Subscribe { view: u("view") },
             "subscribe_reader" => Op::SubscribeReader { reader: u("reader") },
-            "resolve" => Op::Resolve { ctx: u("ctx"), enable_cookie: v["enable_cookie"].as_bool().unwrap_or(true), cookie_name: name("cookie_name") },
+            "resolve" => Op::Resolve { ctx: u("ctx"), enable_cookie: v["enable_cookie"].as_bool().unwrap_or(true), cookie_name: name("cookie_name"), accept: name("accept") },
             "dispose" => Op::Dispose { ctx: u("ctx") },
             "step" => Op::Step { k: u("k") },
             "flush" => Op::Flush,
@@ -212,7 +213,7 @@ pub fn generate(rng: &mut Rng, ows: bool) -> Plan {
                 7 => Op::MakeReader { view: rng.below(8), which: rng.below(16) },
                 8 => {
                     if rng.chance(1, 2) {
-                        Op::Resolve { ctx: rng.below(4), enable_cookie: rng.chance(4, 5), cookie_name: if rng.chance(1, 3) { Some(rng.pick(COOKIE_NAMES).to_string()) } else { None } }
+                        Op::Resolve { ctx: rng.below(4), enable_cookie: rng.chance(4, 5), cookie_name: if rng.chance(1, 3) { Some(rng.pick(COOKIE_NAMES).to_string()) } else { None }, accept: if rng.chance(1, 3) { Some(rng.pick(ACCEPT_POOL).to_string()) } else { None } }
                     } else {
                         Op::Read { reader: rng.below(8) }
                     }
@@ -230,6 +231,15 @@ pub fn generate(rng: &mut Rng, ows: bool) -> Plan {
                 _ => Op::Flush,
             };
             ops.push(op);
+            // short patterns in which the same locale arrives twice by different routes (the second arrival must still notify)
+            if EFFECTS && rng.chance(1, 10) {
+                let (v, l, l2) = (rng.below(8), rng.below(LOCS.len()), rng.below(LOCS.len()));
+                match rng.below(3) {
+                    0 => ops.extend([Op::SetUntracked { view: v, l }, Op::WriteWired { sig: rng.below(3), l }, Op::Flush]),
+                    1 => ops.extend([Op::Set { view: v, l, in_observer: false }, Op::SetUntracked { view: v, l: l2 }, Op::Set { view: v, l: l2, in_observer: rng.chance(1, 3) }, Op::Flush]),
+                    _ => ops.extend([Op::WriteWired { sig: rng.below(3), l }, Op::Flush, Op::SetUntracked { view: v, l: l2 }, Op::WriteWired { sig: rng.below(3), l: l2 }, Op::Flush]),
+                }
+            }
         }
         loads.push(PageLoad { cookie_header, accept_language: accept, default_getters: AXUM && rng.chance(2, 3), ops });
     }
@@ -870,19 +880,30 @@ pub fn execute(plan: &Plan, rng: &mut Rng) -> Outcome {
                     }
                     _ => executed = false,
                 },
-                Op::Resolve { ctx, enable_cookie, cookie_name } => {
+                Op::Resolve { ctx, enable_cookie, cookie_name, accept } => {
                     // documented as equivalent to `init_i18n_context().get_locale_untracked()` for the same options:
                     // cookie (if enabled and valid) > Accept-Language > default, whatever contexts exist around the call
                     let owner = pick_mod(&page.live_ctxs(), *ctx).map(|c| page.ctxs[c].owner.clone()).unwrap_or_else(|| root.clone());
                     let name = cookie_name.clone().unwrap_or_else(|| DEFAULT_COOKIE.to_string());
-                    let mut opts = I18nContextOptions::<Locale>::default().enable_cookie(*enable_cookie).cookie_options(page.cookie_opts()).ssr_lang_header_getter(page.locale_opts());
+                    // its own header getter, when the call is fed from another source (only with injected getters)
+                    let accept = accept.clone().filter(|_| !page.default_getters);
+                    let lopts = match &accept {
+                        Some(a) => {
+                            let a = a.clone();
+                            stats.probe("resolve_with_its_own_header_getter");
+                            UseLocalesOptions::default().ssr_lang_header_getter(move || Some(a.clone()))
+                        }
+                        None => page.locale_opts(),
+                    };
+                    let header = accept.clone().unwrap_or_else(|| page.accept.clone());
+                    let mut opts = I18nContextOptions::<Locale>::default().enable_cookie(*enable_cookie).cookie_options(page.cookie_opts()).ssr_lang_header_getter(lopts);
                     if let Some(n) = cookie_name {
                         opts = opts.cookie_name(n.clone());
                     }
                     let from_cookie = if *enable_cookie && COOKIES { cookie_locale(&page.cookie_header, &name) } else { None };
                     let (want, src) = match from_cookie {
                         Some(l) => (l, "cookie"),
-                        None => (resolve_header(&page.accept), "accept-language/default"),
+                        None => (resolve_header(&header), "accept-language/default"),
                     };
                     match guarded(|| owner.with(|| leptos_i18n::locale::resolve_locale_with_options(opts))) {
                         Ok(l) if loc_index(l) == want => stats.probe("resolve_locale_below_contexts_checked"),
